@@ -1,5 +1,6 @@
-//! The third-party packet family `Custom<PT, MIN>` of PROTOCOL.md §6, written with only the
-//! public helpers of `rtcp-types` (`utils::parser`, `utils::writer`, the traits).
+//! The third-party packet families `Custom<PT, MIN>` (default `MAX_COUNT`) and `Custom16<PT, MIN>`
+//! (`MAX_COUNT = 16`) of PROTOCOL.md §6, written with only the public helpers of `rtcp-types`
+//! (`utils::parser`, `utils::writer`, the traits).
 
 use rtcp_types::{
     prelude::*,
@@ -7,142 +8,181 @@ use rtcp_types::{
     Packet, RtcpPacket, RtcpParseError, RtcpWriteError, Unknown,
 };
 
-/// A parsed Custom packet.
-#[derive(Clone, Debug, PartialEq, Eq)]
-pub struct Custom<'a, const PT: u8, const MIN: usize> {
-    data: &'a [u8],
-}
+/// One third-party family: the parsed view `$View<PT, MIN>` and its builder `$Builder<PT, MIN>`.
+/// `$max_count` is what the family's `impl RtcpPacket` says about `MAX_COUNT` (nothing: the
+/// trait's default 0x1f).
+macro_rules! custom_family {
+    (
+        $(#[$vdoc:meta])* view $View:ident;
+        $(#[$bdoc:meta])* builder $Builder:ident;
+        max_count { $($max_count:tt)* }
+    ) => {
+        $(#[$vdoc])*
+        #[derive(Clone, Debug, PartialEq, Eq)]
+        pub struct $View<'a, const PT: u8, const MIN: usize> {
+            data: &'a [u8],
+        }
 
-impl<'a, const PT: u8, const MIN: usize> RtcpPacket for Custom<'a, PT, MIN> {
-    const MIN_PACKET_LEN: usize = MIN;
-    const PACKET_TYPE: u8 = PT;
-}
+        impl<'a, const PT: u8, const MIN: usize> RtcpPacket for $View<'a, PT, MIN> {
+            const MIN_PACKET_LEN: usize = MIN;
+            const PACKET_TYPE: u8 = PT;
+            $($max_count)*
+        }
 
-impl<'a, const PT: u8, const MIN: usize> RtcpPacketParser<'a> for Custom<'a, PT, MIN> {
-    fn parse(data: &'a [u8]) -> Result<Self, RtcpParseError> {
-        parser::check_packet::<Self>(data)?;
+        impl<'a, const PT: u8, const MIN: usize> RtcpPacketParser<'a> for $View<'a, PT, MIN> {
+            fn parse(data: &'a [u8]) -> Result<Self, RtcpParseError> {
+                parser::check_packet::<Self>(data)?;
 
-        if let Some(padding) = parser::parse_padding(data) {
-            let min_len = MIN + padding as usize;
-            if min_len > data.len() {
-                return Err(RtcpParseError::Truncated {
-                    expected: min_len,
-                    actual: data.len(),
-                });
+                if let Some(padding) = parser::parse_padding(data) {
+                    let min_len = MIN + padding as usize;
+                    if min_len > data.len() {
+                        return Err(RtcpParseError::Truncated {
+                            expected: min_len,
+                            actual: data.len(),
+                        });
+                    }
+                }
+
+                Ok(Self { data })
+            }
+
+            #[inline(always)]
+            fn header_data(&self) -> [u8; 4] {
+                self.data[..4].try_into().unwrap()
             }
         }
 
-        Ok(Self { data })
-    }
+        impl<'a, const PT: u8, const MIN: usize> $View<'a, PT, MIN> {
+            pub fn padding(&self) -> Option<u8> {
+                parser::parse_padding(self.data)
+            }
 
-    #[inline(always)]
-    fn header_data(&self) -> [u8; 4] {
-        self.data[..4].try_into().unwrap()
-    }
-}
+            pub fn body(&self) -> &[u8] {
+                &self.data[4..self.data.len() - self.padding().unwrap_or(0) as usize]
+            }
 
-impl<'a, const PT: u8, const MIN: usize> Custom<'a, PT, MIN> {
-    pub fn padding(&self) -> Option<u8> {
-        parser::parse_padding(self.data)
-    }
-
-    pub fn body(&self) -> &[u8] {
-        &self.data[4..self.data.len() - self.padding().unwrap_or(0) as usize]
-    }
-
-    pub fn builder(body: &'a [u8]) -> CustomBuilder<'a, PT, MIN> {
-        CustomBuilder {
-            padding: 0,
-            some0: false,
-            body,
-        }
-    }
-}
-
-/// Custom packet builder.
-#[derive(Debug)]
-#[must_use = "The builder must be built to be used"]
-pub struct CustomBuilder<'a, const PT: u8, const MIN: usize> {
-    padding: u8,
-    /// `(pad_style some0)`: `get_padding()` is `Some(0)` rather than `None` for padding 0
-    some0: bool,
-    body: &'a [u8],
-}
-
-impl<'a, const PT: u8, const MIN: usize> CustomBuilder<'a, PT, MIN> {
-    pub fn padding(mut self, padding: u8) -> Self {
-        self.padding = padding;
-        self
-    }
-
-    /// Selects the `some0` style of `get_padding()`.
-    pub fn pad_style_some0(mut self) -> Self {
-        self.some0 = true;
-        self
-    }
-
-    fn unpadded_len(&self) -> usize {
-        (4 + self.body.len()).max(MIN)
-    }
-}
-
-impl<'a, const PT: u8, const MIN: usize> RtcpPacketWriter for CustomBuilder<'a, PT, MIN> {
-    fn calculate_size(&self) -> Result<usize, RtcpWriteError> {
-        writer::check_padding(self.padding)?;
-
-        if self.body.len() % 4 != 0 {
-            return Err(RtcpWriteError::DataLen32bitMultiple(self.body.len()));
+            pub fn builder(body: &'a [u8]) -> $Builder<'a, PT, MIN> {
+                $Builder {
+                    padding: 0,
+                    some0: false,
+                    count: 0,
+                    body,
+                }
+            }
         }
 
-        Ok(self.unpadded_len() + self.padding as usize)
-    }
-
-    fn write_into_unchecked(&self, buf: &mut [u8]) -> usize {
-        writer::write_header_unchecked::<Custom<'static, PT, MIN>>(self.padding, 0, buf);
-
-        let mut end = 4 + self.body.len();
-        buf[4..end].copy_from_slice(self.body);
-
-        let filled = self.unpadded_len();
-        if filled > end {
-            buf[end..filled].fill(0);
-            end = filled;
+        $(#[$bdoc])*
+        #[derive(Debug)]
+        #[must_use = "The builder must be built to be used"]
+        pub struct $Builder<'a, const PT: u8, const MIN: usize> {
+            padding: u8,
+            /// `(pad_style some0)`: `get_padding()` is `Some(0)` rather than `None` for padding 0
+            some0: bool,
+            /// `(count N)`: the count the writer passes to `write_header_unchecked` (default 0)
+            count: u8,
+            body: &'a [u8],
         }
 
-        end += writer::write_padding_unchecked(self.padding, &mut buf[end..]);
+        impl<'a, const PT: u8, const MIN: usize> $Builder<'a, PT, MIN> {
+            pub fn padding(mut self, padding: u8) -> Self {
+                self.padding = padding;
+                self
+            }
 
-        end
-    }
+            /// Selects the `some0` style of `get_padding()`.
+            pub fn pad_style_some0(mut self) -> Self {
+                self.some0 = true;
+                self
+            }
 
-    fn get_padding(&self) -> Option<u8> {
-        if self.padding == 0 && !self.some0 {
-            return None;
+            /// Sets the header count handed to `write_header_unchecked` as it is (the third-party
+            /// writer does not check it against `MAX_COUNT`).
+            pub fn count(mut self, count: u8) -> Self {
+                self.count = count;
+                self
+            }
+
+            fn unpadded_len(&self) -> usize {
+                (4 + self.body.len()).max(MIN)
+            }
         }
 
-        Some(self.padding)
-    }
+        impl<'a, const PT: u8, const MIN: usize> RtcpPacketWriter for $Builder<'a, PT, MIN> {
+            fn calculate_size(&self) -> Result<usize, RtcpWriteError> {
+                writer::check_padding(self.padding)?;
+
+                if self.body.len() % 4 != 0 {
+                    return Err(RtcpWriteError::DataLen32bitMultiple(self.body.len()));
+                }
+
+                Ok(self.unpadded_len() + self.padding as usize)
+            }
+
+            fn write_into_unchecked(&self, buf: &mut [u8]) -> usize {
+                writer::write_header_unchecked::<$View<'static, PT, MIN>>(self.padding, self.count, buf);
+
+                let mut end = 4 + self.body.len();
+                buf[4..end].copy_from_slice(self.body);
+
+                let filled = self.unpadded_len();
+                if filled > end {
+                    buf[end..filled].fill(0);
+                    end = filled;
+                }
+
+                end += writer::write_padding_unchecked(self.padding, &mut buf[end..]);
+
+                end
+            }
+
+            fn get_padding(&self) -> Option<u8> {
+                if self.padding == 0 && !self.some0 {
+                    return None;
+                }
+
+                Some(self.padding)
+            }
+        }
+
+        impl<'a, const PT: u8, const MIN: usize> TryFrom<&'a Unknown<'a>> for $View<'a, PT, MIN> {
+            type Error = RtcpParseError;
+
+            fn try_from(u: &'a Unknown<'a>) -> Result<Self, Self::Error> {
+                $View::parse(u.data())
+            }
+        }
+
+        impl<'a, const PT: u8, const MIN: usize> TryFrom<&'a Packet<'a>> for $View<'a, PT, MIN> {
+            type Error = RtcpParseError;
+
+            fn try_from(p: &'a Packet<'a>) -> Result<Self, Self::Error> {
+                match p {
+                    Packet::Unknown(p) => Self::try_from(p),
+                    _ => Err(RtcpParseError::PacketTypeMismatch {
+                        actual: p.type_(),
+                        requested: PT,
+                    }),
+                }
+            }
+        }
+    };
 }
 
-impl<'a, const PT: u8, const MIN: usize> TryFrom<&'a Unknown<'a>> for Custom<'a, PT, MIN> {
-    type Error = RtcpParseError;
-
-    fn try_from(u: &'a Unknown<'a>) -> Result<Self, Self::Error> {
-        Custom::parse(u.data())
-    }
+custom_family! {
+    /// A parsed Custom packet (`MAX_COUNT`: the trait's default, 0x1f).
+    view Custom;
+    /// Custom packet builder.
+    builder CustomBuilder;
+    max_count {}
 }
 
-impl<'a, const PT: u8, const MIN: usize> TryFrom<&'a Packet<'a>> for Custom<'a, PT, MIN> {
-    type Error = RtcpParseError;
-
-    fn try_from(p: &'a Packet<'a>) -> Result<Self, Self::Error> {
-        match p {
-            Packet::Unknown(p) => Self::try_from(p),
-            _ => Err(RtcpParseError::PacketTypeMismatch {
-                actual: p.type_(),
-                requested: PT,
-            }),
-        }
-    }
+custom_family! {
+    /// A parsed Custom16 packet: the same family with `RtcpPacket::MAX_COUNT` overridden to 16
+    /// (request kind `custom16`).
+    view Custom16;
+    /// Custom16 packet builder.
+    builder Custom16Builder;
+    max_count { const MAX_COUNT: u8 = 16; }
 }
 
 /// `(unit PT)`: a zero-sized third-party writer (a field-less unit struct): always 8 bytes, the
